@@ -125,7 +125,7 @@ Canon(sc, v) ==
       [] v.k = "union"  ->
            LET tg == TagByName(sc, v.c, v.tag) IN
            IF IsNullable(sc, tg.t) /\ v.v.k = "struct" /\ IsPlainStruct(sc, Under(sc, tg.t))
-              /\ EncFields(sc, v.v.c, v.v.f, {}) = [x \in {} |-> JNull]
+              /\ EncFields(sc, v.v.c, v.v.f, {}, FALSE) = [x \in {} |-> JNull]
            THEN VUnion(v.c, v.tag, VNone)
            ELSE VUnion(v.c, v.tag, Canon(sc, v.v))
       [] OTHER          -> v
